@@ -202,12 +202,12 @@ theorem search_exact_literal (x : QCtx) (hl : HashLen x.c) (k : Bytes) (hk : x.h
   have hcn : classify x (.col col) .ne (.lit v) = .value col v := by simp [classify, hs, hvne]
   constructor
   · have h := search_exact x hl k hk (.cmp (.col col) .eq (.lit v)) [] [] dcEq
-      (by simp [supported, supportedCmp, hce]) hqe (by simp [rewriteBind, itemParams, hce, hashAt]) S hnc _ _ hrow hpvS
+      (by simp [supported, supportedCmp, hce]) hqe (by simp [rewriteBind, rewriteBindWith, itemParams, hce, hashShared, bindCount, bindData, bindEntries]) S hnc _ _ hrow hpvS
       (by intro w hw; simp [condValues, hce] at hw; subst hw; exact ⟨hv, hm⟩)
     rw [h]
     simp [holds, valOf, evalCmp, evalOp]
   · have h := search_exact x hl k hk (.cmp (.col col) .ne (.lit v)) [] [] dcNe
-      (by simp [supported, supportedCmp, hcn]) hqn (by simp [rewriteBind, itemParams, hcn, hashAt]) S hnc _ _ hrow hpvS
+      (by simp [supported, supportedCmp, hcn]) hqn (by simp [rewriteBind, rewriteBindWith, itemParams, hcn, hashShared, bindCount, bindData, bindEntries]) S hnc _ _ hrow hpvS
       (by intro w hw; simp [condValues, hcn] at hw; subst hw; exact ⟨hv, hm⟩)
     rw [h]
     simp [holds, valOf, evalCmp, evalOp]
@@ -249,7 +249,7 @@ theorem cast_placeholder_not_hashed (x : QCtx) (hpg : x.d = .pg) (col : ColRef) 
     rewriteBind x (.cmp (.col col) .eq (.castParam 0)) values = .ok values := by
   have hv : valueOp .pg .eq = true := by decide
   have hc : changeOp .pg .eq = .eq := by decide
-  simp [rewriteCond, rewriteCmp, classify, hs, hpg, hv, hc, rewriteBind, itemParams, hashAt]
+  simp [rewriteCond, rewriteCmp, classify, hs, hpg, hv, hc, rewriteBind, rewriteBindWith, itemParams, hashShared, bindCount, bindData, bindEntries]
 
 /-! ## a value whose index does not match its content is not handed out -/
 
